@@ -97,6 +97,62 @@ def rule_transparent(chk):
     return resvars
 
 
+def _positional_fast_path(chk, lc, w, cfg, stmt, v, va, kw):
+    """`callargs = dict(zip(<names>, args))` instead of getcallargs for purely positional calls.  It binds like the call itself exactly when
+    <names> are ALL the parameters of a plain function that has no *args, no **kwargs and no keyword-only parameters, and the call has no
+    keyword arguments and as many positional arguments as there are names.  True: all of that is established; str: what is missing;
+    None: not this shape."""
+    ctx = chk.ctx
+    if not (isinstance(v, ast.Call) and isinstance(v.func, ast.Name) and v.func.id == "dict" and len(v.args) == 1 and isinstance(v.args[0], ast.Call)
+            and isinstance(v.args[0].func, ast.Name) and v.args[0].func.id == "zip" and len(v.args[0].args) == 2):
+        return None
+    names_e, args_e = v.args[0].args
+    if not (isinstance(names_e, ast.Name) and isinstance(args_e, ast.Name) and args_e.id == va):
+        return None
+    # where the names come from (decoration time, in log_call)
+    defs = [d for d in iter_own_nodes(lc.node) if isinstance(d, ast.Assign) and any(isinstance(t, ast.Name) and t.id == names_e.id for t in d.targets)]
+    real = [d for d in defs if not (isinstance(d.value, ast.Constant) and d.value.value is None)]
+    if len(real) != 1:
+        return None
+    src = real[0].value
+    inner = src.args[0] if isinstance(src, ast.Call) and isinstance(src.func, ast.Name) and src.func.id in ("tuple", "list") and len(src.args) == 1 else src
+    if not (isinstance(inner, ast.Attribute) and inner.attr == "args" and isinstance(inner.value, ast.Name)):
+        return None
+    spec = inner.value.id
+    spec_vals = [x for x in assigned_values(lc, spec) if x is not None]
+    fparam = lc.params[0]
+    if not (len(spec_vals) == 1 and isinstance(spec_vals[0], ast.Call) and unparse(spec_vals[0].func).split(".")[-1] == "getfullargspec"
+            and len(spec_vals[0].args) == 1 and isinstance(spec_vals[0].args[0], ast.Name) and spec_vals[0].args[0].id == fparam):
+        return None
+    lcfg = ctx.cfg(lc)
+    dn = [n for n in lcfg.live if n.ast is real[0]]
+    if not dn:
+        return None
+    facts = []
+    for t, lab in lcfg.guards_of(dn[0]):
+        if t.kind == "test":
+            facts += [(unparse(e), truth) for e, truth in X.atomic_facts(t.exprs[0], lab)]
+    need = {"no *args": ("%s.varargs is None" % spec, True), "no **kwargs": ("%s.varkw is None" % spec, True), "no keyword-only parameters": ("%s.kwonlyargs" % spec, False),
+            "a plain Python function": ("isfunction(%s)" % fparam, True)}
+    missing = [k for k, f_ in need.items() if f_ not in facts]
+    un = [n for n in cfg.live if n.ast is stmt]
+    ufacts = []
+    for t, lab in (cfg.guards_of(un[0]) if un else []):
+        if t.kind == "test":
+            ufacts += [(unparse(e), truth) for e, truth in X.atomic_facts(t.exprs[0], lab)]
+    if (kw, False) not in ufacts:
+        missing.append("a call without keyword arguments")
+    if ("len(%s) == len(%s)" % (va, names_e.id), True) not in ufacts and ("len(%s) == len(%s)" % (names_e.id, va), True) not in ufacts:
+        missing.append("as many positional arguments as parameters")
+    if ("%s is None" % names_e.id, False) not in ufacts and ("%s is not None" % names_e.id, True) not in ufacts and len(defs) > 1:
+        missing.append("the fast path being enabled for this function")
+    if not missing:
+        return True
+    return ("the positional fast path `%s` stands in for getcallargs without establishing %s: for such a function / call the two differ (e.g. a function with **kwargs called "
+            "positionally: Python binds that parameter to {}, the fast path leaves it out of the start message and include_args=[that name] raises KeyError in the wrapper)"
+            % (unparse(v)[:50], ", ".join(missing)))
+
+
 def rule_args(chk):
     ctx = chk.ctx
     lc, w = _lw(chk)
@@ -148,7 +204,13 @@ def rule_args(chk):
                 nn = [y for y in cfg.live if y.ast is x]
                 guarded = nn and any(t.kind == "test" and inc in unparse(t.exprs[0]) and "None" in unparse(t.exprs[0]) and lab == "true" for t, lab in cfg.guards_of(nn[0]))
                 if not (okf and guarded):
-                    problems.append("the logged arguments are recomputed as %s" % unparse(v)[:60])
+                    fast = _positional_fast_path(chk, lc, w, cfg, x, v, va, kw)
+                    if fast is True:
+                        continue
+                    if fast:
+                        problems.append(fast)
+                        continue
+                    raise AnalysisError("log_call.logging_wrapper: the logged arguments are also computed as `%s` (a second way of binding that is not modelled)" % unparse(v)[:60])
         # they are the start fields
         st = ctx.func("_action", "Action._start")
         scs = [c for n in cfg.live for c, m in calls_in_node(n) if st in ctx.targets(w, c)]
